@@ -190,6 +190,13 @@ def jwk_faults(jwk: dict, rng: Rng):
     d = copy.deepcopy(jwk)
     d["key_ops"] = ["sign", "fly"]
     yield ("retype", "key_ops with an unregistered operation", d)
+    # container confusion: "use" is a string, "key_ops" an array of strings (RFC 7517 4.2 / 4.3)
+    for name, val in (("use", ["sig"]), ("use", ["enc"]), ("use", ["sig", "enc"]), ("key_ops", "sign"), ("key_ops", "verify"), ("key_ops", "deriveKey")):
+        d = copy.deepcopy(jwk)
+        d.pop("use", None)
+        d.pop("key_ops", None)
+        d[name] = val
+        yield ("retype", "member %s := %r (registered value in the wrong container)" % (name, val), d)
     if kty == "RSA" and all(c in jwk for c in CRT):
         for mask in range(1, 31):
             d = copy.deepcopy(jwk)
